@@ -401,7 +401,7 @@ def r8(ctx: Ctx) -> None:
     HO = "SequentialRunner._handle_orders"
     for callee in ("Market._add_order", "Market._cancel_order"):
         sites = ctx.cg.sites_calling(callee)
-        ctx.require(len(sites) >= 2, f"fewer than 2 call sites of {callee}")
+        ctx.require(len(sites) >= 1, f"no call site of {callee}")
         for s in sites:
             ctx.check(caller_ok(ctx, s.caller, lambda g: g.qualname == HO), s.caller, s.node, f"caller of {callee}", HO, s.caller.qualname)
     # provenance inside the runner
